@@ -4,6 +4,7 @@ CONSTANTS
   PairLen = 1
   ShapeLen = 1
   AllPairs = TRUE
+  PortLen = 1
 CONSTRAINT Emit
 INVARIANTS InvOnlySameOrigin InvSameOriginAdmitted InvNoUnicodeFold
 CHECK_DEADLOCK FALSE
